@@ -621,11 +621,13 @@ def generate(prop, seed, tier):
     chain = r.choice([[], [], [], ['cast'], ['rev_affine'], ['rev_affine', 'append_prod'], ['append_prod']])
     faulty = fr.random() < 0.5
     scn = {'prop': 'C09', 'engine': 'ttest', 'seed': seed, 'precision': r.choice(['float32', 'float64']),
-           'tdtype': r.choice(['uint8', 'uint8', 'float32'] + (['int16', 'float64', 'int8'] if thorough else [])),
+           'tdtype': r.choice(['uint8', 'uint8', 'float32', 'int16'] + (['int16', 'float64', 'int8'] if thorough else [])),
            'm': m, 'amp': r.choice([1, 3, 15, 255]), 'sets': sets, 'rule': rule, 'frame': frame, 'chain': chain, 'table_seed': rng.H(seed, 'table'),
            'granularity': 'line' if (not thorough or sr.random() < 0.85) else 'call',
            'workers': [kn.choice([1, 1, 2, 16]), kn.choice([1, 1, 2, 16])],
            'rule_flip': None, 'stall': None, 'faults': []}
+    if rng.stream(seed, 'wide16').random() < 0.5:
+        scn['wide16'] = rng.stream(seed, 'wide16b').choice([4094, 32766, 65534])
     if rng.stream(seed, 'frac').random() < 0.2:
         # float regime of the t-test: float64 (or float32) traces with non-integer values
         scn['tdtype'] = rng.stream(seed, 'frac2').choice(['float64', 'float64', 'float32'])
@@ -681,6 +683,8 @@ def make_sets(scn):
     for j, pair in enumerate(scn['sets']):
         td = np.dtype((scn.get('tdtypes') or [scn['tdtype']] * len(scn['sets']))[j] if j < len(scn.get('tdtypes') or scn['sets']) else scn['tdtype'])
         amp = min(scn['amp'], 254) if td == np.dtype('int8') else scn['amp']
+        if td == np.dtype('int16') and scn.get('wide16'):
+            amp = scn['wide16']          # 12-bit / full-scale 16-bit acquisitions: sums of squares beyond 2^31 within a few traces
         p = []
         for n in pair:
             raw = g.integers(0, 1 << 16, (64, 8))
@@ -1114,7 +1118,7 @@ def candidates(scn):
             c = copy.deepcopy(scn)
             del c['faults'][i]
             yield c
-    for key, val in (('chain', []), ('frame', None), ('rule_flip', None), ('stall', None), ('workers', [1, 1]), ('tdtypes', None), ('frac', None), ('tdtype', 'uint8'), ('amp', 1)):
+    for key, val in (('chain', []), ('frame', None), ('rule_flip', None), ('stall', None), ('workers', [1, 1]), ('tdtypes', None), ('frac', None), ('wide16', None), ('tdtype', 'uint8'), ('amp', 1)):
         if scn.get(key) != val:
             if key == 'chain' and any(f['kind'] == 'callback_error' for f in scn['faults']):
                 continue
